@@ -17,6 +17,7 @@ type PlugFile struct {
 	Name    string `json:"name,omitempty"`
 	IP      string `json:"ip,omitempty"`
 	Content string `json:"content"`
+	Abs     bool   `json:"abs,omitempty"` // the name is already complete: do not prefix it with the output path
 }
 
 // PlugScript describes the behaviour of one simulated plugin process.
@@ -316,7 +317,7 @@ func pluginProgram(p *simrt.Proc, raw json.RawMessage) int {
 			g := &plugin.Generated{Content: f.Content}
 			if f.Name != "" {
 				nm := f.Name
-				if sc.OutPrefix == "$OUT" && outPath != "" {
+				if sc.OutPrefix == "$OUT" && outPath != "" && !f.Abs {
 					nm = outPath + "/" + nm
 				}
 				g.Name = &nm
